@@ -121,7 +121,30 @@ pub fn gen_native(rng: &mut Rng, n: &NativeType, pos: Pos) -> Val {
         N::Timestamp => Val::Timestamp(rng.i64_boundary()),
         N::Timeuuid => Val::Timeuuid(rng.bytes(16).try_into().unwrap()),
         N::Uuid => Val::Uuid(if rng.chance(1, 8) { [0; 16] } else { rng.bytes(16).try_into().unwrap() }),
-        N::Inet => Val::Inet(if rng.bool() { rng.bytes(4) } else { rng.bytes(16) }),
+        N::Inet => Val::Inet(match rng.below(8) {
+            0 | 1 | 2 => rng.bytes(4),
+            3 | 4 => rng.bytes(16),
+            // structured IPv6 addresses: IPv4-mapped (::ffff:a.b.c.d), IPv4-compatible (::a.b.c.d), loopback,
+            // unspecified, link-local, 6to4 - an address family must never be "normalised" on the wire
+            5 => {
+                let mut b = vec![0u8; 10];
+                b.extend_from_slice(&[0xff, 0xff]);
+                b.extend_from_slice(&rng.bytes(4));
+                b
+            }
+            6 => {
+                let mut b = vec![0u8; 12];
+                b.extend_from_slice(&rng.bytes(4));
+                b
+            }
+            _ => match rng.below(5) {
+                0 => { let mut b = vec![0u8; 16]; b[15] = 1; b }
+                1 => vec![0u8; 16],
+                2 => { let mut b = rng.bytes(16); b[0] = 0xfe; b[1] = 0x80; b }
+                3 => { let mut b = rng.bytes(16); b[0] = 0x20; b[1] = 0x02; b }
+                _ => vec![0xffu8; 16],
+            },
+        }),
         N::Varint => {
             let l = rng.range(1, 12) as usize;
             let mut b = rng.bytes(l);
@@ -218,7 +241,11 @@ fn pool3(n: &NativeType) -> [Val; 3] {
         N::Timestamp => [Val::Timestamp(0), Val::Timestamp(-1), Val::Timestamp(i64::MIN)],
         N::Timeuuid => [Val::Timeuuid([0; 16]), Val::Timeuuid([0xff; 16]), Val::Timeuuid(*b"\x01\x02\x03\x04\x05\x06\x17\x08\x89\x0a\x0b\x0c\x0d\x0e\x0f\x10")],
         N::Uuid => [Val::Uuid([0; 16]), Val::Uuid([0xff; 16]), Val::Uuid(*b"\x01\x02\x03\x04\x05\x06\x47\x08\x89\x0a\x0b\x0c\x0d\x0e\x0f\x10")],
-        N::Inet => [Val::Inet(vec![127, 0, 0, 1]), Val::Inet(vec![0; 16]), Val::Inet((1..=16).collect())],
+        N::Inet => [
+            Val::Inet(vec![127, 0, 0, 1]),
+            Val::Inet(vec![0, 0, 0, 0, 0, 0, 0, 0, 0, 0, 0xff, 0xff, 10, 1, 2, 3]), // ::ffff:10.1.2.3
+            Val::Inet((1..=16).collect()),
+        ],
         N::Varint => [Val::Varint(vec![0]), Val::Varint(vec![0xff, 0x7f]), Val::Varint(vec![0, 0, 0x80, 1, 2, 3, 4, 5, 6])],
         N::Decimal => [Val::Decimal(0, vec![]), Val::Decimal(-3, vec![0x80]), Val::Decimal(i32::MAX, vec![1, 2, 3])],
         N::Duration => [Val::Duration(0, 0, 0), Val::Duration(-1, 1, i64::MIN), Val::Duration(i32::MAX, i32::MIN, 0x0040_0000_0000_0000)],
